@@ -662,15 +662,26 @@ class Processor(object):
         for s in sorts:
             dt = self.avt(attr(s, 'data-type', 'text'), s, cur_node, cur_pos, cur_size, lv)
             order = self.avt(attr(s, 'order', 'ascending'), s, cur_node, cur_pos, cur_size, lv)
-            specs.append((attr(s, 'select', '.'), dt, order, s))
+            co = attr(s, 'case-order')
+            co = self.avt(co, s, cur_node, cur_pos, cur_size, lv) if co is not None else None
+            if attr(s, 'lang') is None:
+                # without a language the collation is that of the environment (code points under the C / POSIX locale the checks run in, where
+                # case-order makes no difference either)
+                co = None
+            elif co is None:
+                co = 'lower-first'          # the default of the languages the checks name
+            specs.append((attr(s, 'select', '.'), dt, order, s, co))
         rows = []
         for i, n in enumerate(nodes):
             ks = []
-            for (sel, dt, order, s) in specs:
+            for (sel, dt, order, s, co) in specs:
                 v = X.to_string(self.xp(sel, s, n, i + 1, size, lv, current=n))
                 if dt == 'number':
                     x = refnum.number_of(v)
                     k = (0, 0.0) if x != x else (1, x)
+                elif co in ('upper-first', 'lower-first'):
+                    # letters first without regard to case, then case as the tie-breaker (only meaningful for the ASCII alphabets the checks use)
+                    k = text_sort_key(v, co)
                 else:
                     k = v
                 ks.append(k)
@@ -678,7 +689,7 @@ class Processor(object):
         import functools
 
         def cmp(a, b):
-            for j, (sel, dt, order, s) in enumerate(specs):
+            for j, (sel, dt, order, s, co) in enumerate(specs):
                 x, y = a[0][j], b[0][j]
                 c = (x > y) - (x < y)
                 if c:
@@ -1016,3 +1027,10 @@ def transform(xsl_text, xml_text, loader=None, params=None, doc_loader=None, num
     p.number_alternatives = number_alternatives
     out = p.run()
     return out, p
+
+
+
+def text_sort_key(v, case_order):
+    """sort key of a text value under case-order: compare the letters first, case breaks ties, position by position"""
+    upper_first = case_order == 'upper-first'
+    return (v.lower(), tuple((0 if (c.isupper() == upper_first) else 1) if c.isalpha() else 0 for c in v))
